@@ -145,7 +145,9 @@ def emit_fn(item, ledger, global_rewrites, probe=False):
         txt = txt.replace(_mk("LE%d" % n), spec.get("body_epilogue", ""))
     for n in loops:
         if n >= len(it["loops"]):
-            raise Undecided("lost anchor: loop #%d of %s not found" % (n, where))
+            # the function no longer has that loop (code changed shape): its invariant has nothing to attach to;
+            # the function goes to Verus as it is and is verified, refuted or rejected on its own merits
+            ledger.add(where=where, rule="L", before="loop #%d" % n, after="(absent)", why="loop contract not applied: the function has fewer loops than the unit expects")
     # auxiliary functions cut out of the item's own text (e.g. the body of a closure passed to a std adapter that
     # Verus cannot type): the captured expression is verified as a function of its own, next to the item
     orig = src[s0:e0].decode()
